@@ -3,7 +3,7 @@ import json, os
 HERE = os.path.dirname(os.path.dirname(os.path.abspath(__file__)))
 NOTE_COMMON = ("Trusted base: Lean 4.33.0 kernel; axioms printed by #print axioms for every property theorem (subset of propext, Classical.choice, Quot.sound; "
                "no native_decide/bv_decide/sorry/own axioms, audited on every run); the hand-written model is tied to /repo by the correspondence check "
-               "(model driver vs real asn1tools on the same generated inputs) and by harness/extract.py regenerating Asn1Model/Extracted.lean from the source. ")
+               "(model driver vs real asn1tools on the same generated inputs), by harness/extract.py regenerating Asn1Model/Extracted.lean (tables) and by harness/py2lean.py regenerating Asn1Model/Translated.lean (leaf functions and bit buffer classes) from the source on every run. ")
 CHECKS = {
  'C14': dict(
     text="Lean theorems about the model of ignore_comments (new-line positions, length and every non-comment character preserved for ALL strings); "
@@ -15,23 +15,23 @@ CHECKS = {
 CHECKS['C01'] = dict(
     text="Lean theorem uper_roundtrip_partial: for ALL well-formed types of the model universe and ALL accepted values and ALL continuations of the bit stream, "
          "UPER decode(encode v ++ rest) = (canon v, rest) (structural induction over the type universe, no bound on nesting/sizes), outside the named finding predicates; "
-         "OER round-trip theorem in progress (model exists, statement validated); ber/der/per: the property is evaluated directly on the implementation. "
+         "likewise oer_roundtrip_partial (OER) and der_roundtrip / ber_roundtrip (C01b.lean); aligned PER: code model + correspondence, no round-trip theorem. "
          "The uper/oer models are tied to the code by byte-exact encode and value-exact decode correspondence on every generated case.",
     note=NOTE_COMMON + "Partial: universe = BOOLEAN/NULL/INTEGER/ENUMERATED/OCTET+BIT STRING/5 string kinds/SEQUENCE(OPTIONAL,DEFAULT,additions)/SEQUENCE OF/CHOICE under AUTOMATIC TAGS; "
          "REAL, OID, SET, time types, named bits, addition groups, references are exercised by correspondence-free direct checks only; CPython str codecs assumed.",
     technique="Lean 4 proof (mutual structural induction over Ty) + differential correspondence with the compiled Lean model",
     ref="DESIGN.md §4 C01")
 CHECKS['C15'] = dict(
-    text="Lean model of skip_tag/decode_length/decode_full_length; kernel-evaluated instances now, general theorems for all identifier/length octets and all prefixes being proved; "
+    text="Lean theorems probe_complete / probe_prefix (decode_full_length returns the full message length for EVERY prefix that contains the identifier and length octets and 'unknown' for every shorter one, for all valid identifier and definite length octets incl. padded long forms), encTag_valid, encLength_valid; "
          "exact correspondence on every prefix of synthetic TLVs (tags to 2^28, lengths to 70000, padded long forms) and decode_with_length on typed messages.",
-    note=NOTE_COMMON + "decode_with_length on typed values is evaluated directly (BER model pending).",
-    technique="Lean 4 model + kernel evaluation + exhaustive-prefix correspondence",
+    note=NOTE_COMMON + "decode_with_length on typed values: C01b round-trip theorems with remaining input + direct evaluation.",
+    technique="Lean 4 proof (all identifier / length octets, all prefixes) + exhaustive-prefix correspondence",
     ref="DESIGN.md §4 C15")
 CHECKS['C16'] = dict(
-    text="Lean theorems that every primitive read of the UPER/OER models with insufficient remaining data is the library's DecodeError (never a value, never foreign); "
+    text="Lean theorems uper_truncated / oer_truncated / der_truncated: EVERY strict byte prefix of the encoding of any value of any type of the universe is rejected with the library's DecodeError by the code model (never a value, never foreign), and *_prefix_deterministic; "
          "every strict byte prefix of generated encodings is checked on the implementation for 5 codecs and, for uper/oer, against the Lean model decoder.",
-    note=NOTE_COMMON + "Partial: the composition 'strict prefix of a whole encoding => error' is proved for primitives only so far; ber/der/per by direct evaluation.",
-    technique="Lean 4 proof (primitives) + all-cut-points differential check",
+    note=NOTE_COMMON + "Partial: aligned PER and BER by direct evaluation + correspondence (no truncation theorem).",
+    technique="Lean 4 proof (every strict prefix of every encoding, structural induction) + all-cut-points differential check",
     ref="DESIGN.md §4 C16")
 CHECKS['C11'] = dict(
     text="Lean theorems check_iff_admits / rejected_path_exact: the model of constraints_checker.py accepts a value IFF every component at any depth "
@@ -175,7 +175,28 @@ CHECKS['C10'] = dict(
     ref="DESIGN.md §4 C09/C10")
 NOT_APPLICABLE = []
 
+TRANSLATOR_TIE = {
+    'C01': "TRANSLATOR TIE (harness/py2lean.py regenerates Asn1Model/Translated.lean from /repo's source on every run): OBJECT IDENTIFIER subidentifier encode/decode round trip and X.690 8.19.2 shape, "
+           "and lowest_set_bit, proved directly on the translated code (Properties/C01t.lean); the bit buffer classes per.Encoder/Decoder, oer.Encoder/Decoder are validated against reference oracles on call sequences.",
+    'C03': "TRANSLATOR TIE: ber.encode_tag / ber.encode_length_definite translated from the current source are proved equal to the model functions of der_tlv_shape (Properties/C03t.lean).",
+    'C05': "TRANSLATOR TIE: the Python classes per.Encoder (big-integer bit buffer with 4096-bit chunks) and per.Decoder are translated statement by statement from the current source on every run and proved, for ALL states and arguments, "
+           "to refine the bit-list primitives of the code models (Properties/C05t.lean, C05u.lean: 33 theorems); independent reference oracles search call sequences for a failing input when a bridge breaks.",
+    'C06': "TRANSLATOR TIE: oer.encode_tag and the classes oer.Encoder / oer.Decoder translated from the current source refine the octet primitives of the code model (Properties/C06t.lean, C06u.lean: 21 theorems).",
+    'C09': "TRANSLATOR TIE: the generation-time predicate does_bits_match_range is translated from the source (Properties/C09t.lean).",
+    'C10': "TRANSLATOR TIE: get_length_determinant_length translated from the current source is proved equal to the model's staticLenDetLen, about which the defect theorems are stated (Properties/C10t.lean).",
+    'C15': "TRANSLATOR TIE: ber.encode_tag / ber.encode_length_definite translated from the current source equal Ber.encTag / Ber.encLength for every tag number and every length below 256^127 "
+           "(statement refuted at 256^127, Properties/C15t.lean).",
+    'C08': "The decoder classes per.Decoder / oer.Decoder are validated on call sequences against reference readers (never more bits consumed than present; OutOfDataError beyond the end).",
+    'C16': "The translated decoder classes (Properties/C05u.lean, C06u.lean) prove that every read beyond the end of the input is OutOfDataError for every state and width; validated on call sequences.",
+}
+TECH_SUFFIX = ' + translator tie (Python source -> Lean definitions regenerated on every run, bridge theorems, translator validation against the running code)'
+
+
 def main():
+    for pid, extra in TRANSLATOR_TIE.items():
+        CHECKS[pid]['text'] = CHECKS[pid]['text'].rstrip() + ' ' + extra
+        if pid not in ('C08', 'C16'):
+            CHECKS[pid]['technique'] = CHECKS[pid]['technique'] + TECH_SUFFIX
     props = [json.loads(l)['id'] for l in open(os.path.join(HERE, 'properties.jsonl'))]
     checks = []
     for pid in props:
